@@ -196,6 +196,9 @@ func checkMain(prop, tier string, only string) int {
 			lines = append(lines, fmt.Sprintf("INCONCLUSIVE: %s: solver: %s", tag, m))
 		}
 		for _, ob := range r.Obligations {
+			if len(ob.ID) > 4 && ob.ID[0] == 'C' && ob.ID[3] == '/' && ob.ID[:3] != prop {
+				continue // an obligation of another property decided by the same harness
+			}
 			obligations++
 			sample := map[string]any{"harness": tag, "obligation": ob.ID, "kind": ob.Kind, "verdict": ob.Verdict, "path_queries": ob.Paths, "ms": ob.Ms}
 			switch ob.Kind {
